@@ -2,6 +2,8 @@
    Only statements; every proof is `exact <lemma>` from proofs/Utility*.v. *)
 From OP Require Import gen.Consts model.Base model.Stream model.Utility
   proofs.BaseFacts proofs.UtilityLadder proofs.UtilityDuty proofs.UtilityProfile proofs.UtilityWitness proofs.UtilityRows.
+(* the pocket-free GCC model (C07) is only named, not imported: it has its own pinch_idx / deltas / cumsum *)
+From OP Require model.Pockets proofs.PocketsValley proofs.PocketsExamples proofs.ComposePocketsUtility.
 Local Open Scope Q_scope.
 
 (* greedy_optimal: the lowest-grade-first closed form dominates, prefix by prefix from the lowest grade, EVERY allocation
@@ -190,9 +192,95 @@ Theorem C04_default_utilities_isothermal :
 Proof. exact (fun x => conj (default_hu_iso x) (default_cu_iso x)). Qed.
 Print Assumptions C04_default_utilities_isothermal.
 
-(* STILL OPEN (evaluated per case by clauses 25/36/39 of judge_c04, not proved):
-   - the link H_np[i] = H_net_actual[i]: that the demand columns the code passes (flip (sep_cold HA) on rows 0..rh,
-     flip (sep_hot HA) on rows k..) equal the pocket-free GCC there and satisfy the monotonicity / zero-above-the-pinch
-     hypotheses is not derived from `sep_hot` / `sep_cold` / `pinch_idx`;
+(* ======================================================================================================================
+   COMPOSITION WITH C07 (proofs/ComposePocketsUtility.v): the demand columns are not data any more.
+   The targeting reads H_cold_net = sep_cold HA (hot utilities) and H_hot_net = sep_hot HA (cold utilities), each through `flip`,
+   at the pinch rows of pinch_idx HA, where HA = H_net_actual = the H_net_np column of get_GCC_without_pockets.
+   `Valley tol HA` (proofs/PocketsValley.v): HA falls, in steps that are zero or larger than tol, to a zero and rises again;
+   the output column of gcc_np is one on every Robust GCC with a pinch (gcc_np_z_valley).
+   ====================================================================================================================== *)
+
+(* the two demand columns of a valley: as long as the column, monotone, non-negative, heating demand + cooling demand = H_np in
+   EVERY row; the hot pinch row of pinch_idx is a zero row and the cooling demand is <= tol down to it -- these are exactly
+   the data hypotheses of C04_utility_profile_feasible_at_every_row (for any rc: the cold segment may start at rc - 1) *)
+Theorem C04_demand_columns_of_a_valley :
+  forall HA, PocketsValley.Valley tol HA ->
+  let Hh := flip tol (sep_cold HA) in let Hc := flip tol (sep_hot HA) in
+  let rh := fst (fst (pinch_idx tol HA)) in
+  List.length Hh = List.length HA /\ List.length Hc = List.length HA
+  /\ noninc Hh = true /\ noninc (rev Hc) = true
+  /\ (forall i, 0 <= nth i Hh 0 /\ 0 <= nth i Hc 0 /\ nth i Hh 0 + nth i Hc 0 == nth i HA 0)
+  /\ (rh < List.length HA)%nat /\ Qabs (nth rh HA 0) < tol /\ (forall j, (j <= rh)%nat -> nth j Hc 0 <= tol).
+Proof. exact ComposePocketsUtility.valley_demand_columns. Qed.
+Print Assumptions C04_demand_columns_of_a_valley.
+
+(* the same for the output table of gcc_np on a Robust GCC with a pinch (rows more than tol apart included) *)
+Theorem C04_demand_columns_of_the_pocket_free_gcc :
+  forall Ts Hs out, Pockets.robust_b tol Ts Hs = true -> Pockets.has_pinch tol Hs = true -> Pockets.gcc_np tol Ts Hs = Ok out ->
+  let HA := map Pockets.rNP out in
+  let Hh := flip tol (sep_cold HA) in let Hc := flip tol (sep_hot HA) in
+  let rh := fst (fst (pinch_idx tol HA)) in
+  gapped tol (map Pockets.rT out) = true
+  /\ List.length Hh = List.length HA /\ List.length Hc = List.length HA
+  /\ noninc Hh = true /\ noninc (rev Hc) = true
+  /\ (forall i, 0 <= nth i Hh 0 /\ 0 <= nth i Hc 0 /\ nth i Hh 0 + nth i Hc 0 == nth i HA 0)
+  /\ (rh < List.length HA)%nat /\ Qabs (nth rh HA 0) < tol /\ (forall j, (j <= rh)%nat -> nth j Hc 0 <= tol).
+Proof. exact ComposePocketsUtility.gcc_demand_columns. Qed.
+Print Assumptions C04_demand_columns_of_the_pocket_free_gcc.
+
+(* feasible at every row for the duties get_utility_targets assigns (di_duties: pinch_idx, flip, the entry tests of
+   _target_utility, the two loops) on ANY valley column and any grid with rows more than tol apart *)
+Theorem C04_utility_profile_feasible_on_a_valley :
+  forall T HA hus cus,
+  gapped tol T = true -> List.length T = List.length HA -> PocketsValley.Valley tol HA ->
+  (forall u, In u hus -> gridded_hot tol T u) -> (forall u, In u cus -> gridded_cold tol T u) ->
+  let dd := di_duties tol T HA (sep_hot HA) (sep_cold HA) hus cus in
+  forall i, (i < List.length T)%nat ->
+  0 <= nth i (hut_model T hus cus (fst dd) (snd dd)) 0 /\ nth i (hut_model T hus cus (fst dd) (snd dd)) 0 <= nth i HA 0.
+Proof. exact ComposePocketsUtility.valley_rows_feasible. Qed.
+Print Assumptions C04_utility_profile_feasible_on_a_valley.
+
+(* THE COMPOSED STATEMENT: the GCC (Ts, Hs) Robust with a pinch is the only data.  On the output table of
+   get_GCC_without_pockets (its rows include the breakpoints it inserts), for every gridded ladder,
+   0 <= H_ut[i] <= H_net_np[i] = H_net_actual[i] in EVERY row i *)
+Theorem C04_utility_profile_feasible_from_the_gcc :
+  forall Ts Hs out, Pockets.robust_b tol Ts Hs = true -> Pockets.has_pinch tol Hs = true -> Pockets.gcc_np tol Ts Hs = Ok out ->
+  forall hus cus,
+  let T := map Pockets.rT out in let HA := map Pockets.rNP out in
+  (forall u, In u hus -> gridded_hot tol T u) -> (forall u, In u cus -> gridded_cold tol T u) ->
+  let dd := di_duties tol T HA (sep_hot HA) (sep_cold HA) hus cus in
+  forall i, (i < List.length out)%nat ->
+  0 <= nth i (hut_model T hus cus (fst dd) (snd dd)) 0 /\ nth i (hut_model T hus cus (fst dd) (snd dd)) 0 <= nth i HA 0.
+Proof. exact ComposePocketsUtility.gcc_rows_feasible. Qed.
+Print Assumptions C04_utility_profile_feasible_from_the_gcc.
+
+(* non-vacuity: the ex2 curve of C07 (11 rows, pockets on both sides of the pinch at 180) is Robust with a pinch, gcc_np gives
+   the 13-row table ex2_out (breakpoints at 1340/7 and 172); with a two-level ladder a side (utilities spanning whole intervals
+   of that grid) the duties are 0/40 and 20/0 and the utility profile is feasible in all 13 rows *)
+Theorem C04_composed_nonvacuous :
+  Pockets.robust_b tol PocketsExamples.ex2_T PocketsExamples.ex2_H = true
+  /\ Pockets.has_pinch tol PocketsExamples.ex2_H = true
+  /\ Pockets.gcc_np tol PocketsExamples.ex2_T PocketsExamples.ex2_H = Ok ComposePocketsUtility.ex2_out
+  /\ (let T := map Pockets.rT ComposePocketsUtility.ex2_out in let HA := map Pockets.rNP ComposePocketsUtility.ex2_out in
+      di_duties tol T HA (sep_hot HA) (sep_cold HA) ComposePocketsUtility.ex2_hus ComposePocketsUtility.ex2_cus = ([0; 40], [20; 0])
+      /\ forall i, (i < 13)%nat ->
+         0 <= nth i (hut_model T ComposePocketsUtility.ex2_hus ComposePocketsUtility.ex2_cus [0; 40] [20; 0]) 0
+         /\ nth i (hut_model T ComposePocketsUtility.ex2_hus ComposePocketsUtility.ex2_cus [0; 40] [20; 0]) 0 <= nth i HA 0).
+Proof.
+  exact (conj (proj1 PocketsExamples.ex2_robust) (conj (proj1 (proj2 PocketsExamples.ex2_robust))
+        (conj ComposePocketsUtility.ex2_gcc ComposePocketsUtility.ex2_composed))).
+Qed.
+Print Assumptions C04_composed_nonvacuous.
+
+(* CLOSED by the composition above (was OPEN): the link H_np[i] = H_net_actual[i].  The demand columns the code passes,
+   flip (sep_cold HA) and flip (sep_hot HA) with HA the output column of gcc_np, are derived -- not assumed -- to be monotone,
+   non-negative, to add up to HA in every row and to vanish (<= tol) on the other side of the hot pinch row of pinch_idx; no
+   hypothesis of the row theorem fails on a Robust GCC (the cold segment starting at rc - 1 is harmless: the facts hold for
+   every rc).
+   STILL OPEN (evaluated per case by clauses 25/36/39 of judge_c04, not proved):
+   - GCCs that are not Robust (a level or a crossing within tol of another) and GCCs without a pinch row: C07's theorems,
+     hence the composition, do not cover them;
+   - that the grid of the problem table contains the shifted end points of every utility (the `gridded` hypotheses) is a fact
+     about create_problem_table_with_t_int, which neither model contains: it stays a hypothesis on the ladder;
    - ladders that are not gridded: an end point that is not a row makes the cascade a ramp inside an interval, not a step;
      a glide inside the process range violates feasibility (C04_glide_feasible_refuted). *)
